@@ -227,14 +227,28 @@ fn actual(c: &Case, t: &Tree) -> Result<Expected, String> {
     let ver = c.key.1.as_ref().map(|v| semver::Version::parse(v).unwrap());
     if c.wat_feature {
         let mut keys = IndexMap::new();
-        keys.insert(wac_types::BorrowedPackageKey::from_name_and_version(&c.key.0, ver.as_ref()), miette::SourceSpan::new(0.into(), 0));
+        // in skip mode a package that does not exist is requested first and another one last: neither may
+        // change what the key under test resolves to
+        if !c.strict {
+            keys.insert(wac_types::BorrowedPackageKey::from_name_and_version("zz:missing-first", None), miette::SourceSpan::new(0.into(), 0));
+        }
+        let real = wac_types::BorrowedPackageKey::from_name_and_version(&c.key.0, ver.as_ref());
+        keys.insert(real, miette::SourceSpan::new(0.into(), 0));
+        if !c.strict {
+            keys.insert(wac_types::BorrowedPackageKey::from_name_and_version("zz:missing-last", None), miette::SourceSpan::new(0.into(), 0));
+        }
         let resolver = wac_resolver::FileSystemPackageResolver::new(&t.root, t.overrides.clone(), c.strict);
         match guarded(|| resolver.resolve(&keys)) {
             Err(p) => Err(format!("panic: {p}")),
-            Ok(Ok(m)) => Ok(match m.into_iter().next() {
-                Some((_, b)) => Expected::Bytes(b),
-                None => Expected::Skipped,
-            }),
+            Ok(Ok(m)) => {
+                if m.keys().any(|k| k.name.starts_with("zz:")) {
+                    return Err("a package that does not exist was resolved".into());
+                }
+                Ok(match m.get(&real) {
+                    Some(b) => Expected::Bytes(b.clone()),
+                    None => Expected::Skipped,
+                })
+            }
             Ok(Err(wac_resolver::Error::UnknownPackage { .. })) => Ok(Expected::Unknown),
             Ok(Err(wac_resolver::Error::PackageResolutionFailure { .. })) => Ok(Expected::Failure),
             Ok(Err(e)) => Err(format!("unexpected error variant: {e}")),
